@@ -23,7 +23,10 @@ func NewCache() Cache {
 }
 
 func (c Cache) Get(fn string, args []object.Object) (object.Object, []byte, bool) {
-	if verifNoCache() || len(args) > MaxArgs {
+	if verifNoCache() {
+		return nil, nil, false
+	}
+	if len(args) > MaxArgs {
 		return nil, nil, false
 	}
 	key := CacheKey{Fn: fn}
@@ -39,7 +42,10 @@ func (c Cache) Get(fn string, args []object.Object) (object.Object, []byte, bool
 }
 
 func (c Cache) Set(fn string, args []object.Object, result object.Object, output []byte) {
-	if verifNoCache() || len(args) > MaxArgs {
+	if verifNoCache() {
+		return
+	}
+	if len(args) > MaxArgs {
 		return
 	}
 	key := CacheKey{Fn: fn}
